@@ -11,6 +11,7 @@ Inductive action :=
   | KStep (e : nat).
 
 Definition is_onone (p : opcT) : bool := match p with ONone => true | _ => false end.
+Definition is_p5w (p : opcT) : bool := match p with P5w => true | _ => false end.
 Definition cancel_due (s : st) : bool := oco s && ocbit s && Nat.eqb (odis s) 0.
 Definition zle_opt (d : option Z) (n : Z) : bool := match d with Some t => Z.leb t n | None => false end.
 Definition zadd_opt (n : Z) (d : option Z) : option Z := match d with Some t => Some (n + t)%Z | None => None end.
@@ -93,8 +94,8 @@ Definition ostep (s : st) : option st :=
   | P5 => if tok s (ob s) then Some (set_opc (set_tok s (upd (tok s) (ob s) false)) P6)
           else if cancel_due s then Some (raise_poll s UCancel)
           else Some (set_opc (set_opdl s (zadd_opt (now s) (oto s))) P5w)
-  | P5w => if tok s (ob s) || zle_opt (opdl s) (now s) || cancel_due s
-           then let s := set_tok s (upd (tok s) (ob s) false) in
+  | P5w => if tok s (ob s) || zle_opt (opdl s) (now s) || cancel_due s || owk s
+           then let s := set_owk (set_tok s (upd (tok s) (ob s) false)) false in
                 if cancel_due s then Some (raise_poll s UCancel) else Some (set_opc s P6)
            else None
   | P6 => if zle_opt (odl s) (now s) then Some (ret_timeout s) else Some (set_opc s P1)
@@ -173,7 +174,9 @@ Definition step (s : st) (ac : action) : option st :=
   match ac with
   | Start co => match opc s with ONone => Some (set_opc (set_oco s co) OBody) | _ => None end
   | Tick t => if Z.leb (now s) t then Some (set_now s t) else None
-  | CancelOwner => if oco s && negb (is_onone (opc s)) then Some (set_ocbit s true) else None
+  | CancelOwner => (* Coroutine::cancel: sets the bit and takes a coroutine that is suspended in a park, whatever its disable count *)
+                   if oco s && negb (is_onone (opc s))
+                   then Some (set_owk (set_ocbit s true) (owk s || is_p5w (opc s))) else None
   | OAdd => match opc s with
             | OBody => let n := nexta s in Some (set_opc (set_nexta (wpc s n ATop) (S n)) OA2)
             | _ => None end
@@ -218,7 +221,7 @@ Definition init : st :=
      tok := fun _ => false; nextb := 0;
      opc := ONone; oco := false; ocbit := false; odis := 0; ounw := UNone; ofin := 0; opay := UNone;
      oto := None; odl := None; opdl := None; ocall := 0%Z; oalld := false; ob := 0; ocur := 0; oev := 0;
-     ojres := RRun; fi := 0; ostash := EDone 0;
+     ojres := RRun; fi := 0; ostash := EDone 0; owk := false;
      now := 0%Z; nexta := 0; nexte := 0;
      tops := fun _ => 0; bots := fun _ => 0; botd := fun _ => 0; sent := fun _ => 0; byield := fun _ => false;
      epush := fun _ => 0; epop := fun _ => 0; ernd := fun _ => 0; dpush := fun _ => 0; dpop := fun _ => 0;
